@@ -83,7 +83,9 @@ def run(ctx):
             continue
         checked += 1
         rep = float(shadow[r["name"]])
-        if abs(rep - float(slope)) > 1e-5 * max(1.0, abs(float(slope))):
+        # an interior-point dual is accurate relative to the scale of the costs: 1e-5 of max(1, |slope|, largest cost)
+        cmax = max([abs(float(c)) for c in m.get("obj", [])] + [0.0])
+        if abs(rep - float(slope)) > 1e-5 * max(1.0, abs(float(slope)), cmax):
             fails.append({"kind": "shadow-price-is-not-the-sensitivity", "input": m["text"], "row": r["name"], "reported": rep, "certified": str(slope), "class": "unclassified"})
     new = C.triage_failures(ctx, fails, describe)
     samples = []
@@ -101,7 +103,7 @@ def run(ctx):
         "failures_unlisted": new,
         "trusted_base": C.TRUSTED_BASE_COMMON[:1] + [
             "Cert/Sensitivity.v sensitivity_cert_sound (axiom-free, over Q): one dual vector certifying the optimum for b and for b +- delta fixes the slope of the optimal value",
-            "untrusted: z3 (exact LRA) via tools/exactlp.py --sens; glue: JSON/Gallina printers, Python comparison (1e-5 relative)",
+            "untrusted: z3 (exact LRA) via tools/exactlp.py --sens; glue: JSON/Gallina printers, Python comparison (1e-5 of max(1, |slope|, largest objective coefficient))",
             "not modelled: Clarabel / good_lp; only solve_real_lp_problem_clarabel reports duals among the built-in solvers"],
     })
     return C.finish(ctx, "translation_validation", cov, ["uniqueness/non-degeneracy is established per row by the two-sided certificate; rows without one are outside the property and are skipped (counted)"])
